@@ -500,6 +500,59 @@ def fs_facts(fs):
 DECLS = Path(__file__).resolve().parent / "gen_facts_decls.json"   # last known good shape (name : type) of every section
 
 
+def doc_examples():
+    """The literal native-format documents of docs/sphinx/ug_serialize.rst: every
+    indented literal block that is a JSON object with a "meta" and a "nodes"
+    member.  The guide writes one of them with a trailing comma inside an
+    object; `,` directly before a closing brace/bracket is dropped, nothing
+    else is touched.  Fail closed if fewer than 4 are found."""
+    import json
+    import re
+
+    rst = (REPO / "docs" / "sphinx" / "ug_serialize.rst").read_text(encoding="utf8").splitlines()
+    blocks = []
+    i = 0
+    while i < len(rst):
+        if rst[i].rstrip() == "    {":
+            j = i
+            while j < len(rst) and rst[j].rstrip() != "    }":
+                if rst[j].strip() and not rst[j].startswith("    "):
+                    break
+                j += 1
+            if j < len(rst) and rst[j].rstrip() == "    }":
+                blocks.append("\n".join(rst[i:j + 1]))
+                i = j
+        i += 1
+    docs = []
+    for b in blocks:
+        if '"meta"' not in b or '"nodes"' not in b:
+            continue
+        norm = re.sub(r",(\s*[}\]])", r"\1", b)
+        try:
+            docs.append(json.loads(norm, object_pairs_hook=lambda kv: ("dict", kv)))
+        except ValueError as e:
+            raise Unsupported(f"ug_serialize.rst: example document is not JSON: {e}")
+    if len(docs) < 4:
+        raise Unsupported(f"ug_serialize.rst: expected 4 native-format example documents, found {len(docs)}")
+    return docs
+
+
+def gjson(v) -> str:
+    if v is None:
+        return "GNull"
+    if isinstance(v, bool):
+        return f"(GBool {'true' if v else 'false'})"
+    if isinstance(v, int):
+        return f"(GInt ({v})%Z)"
+    if isinstance(v, str):
+        return f"(GStr {text(v)})"
+    if isinstance(v, list):
+        return "(GList [" + "; ".join(gjson(x) for x in v) + "])"
+    if isinstance(v, tuple) and v[0] == "dict":
+        return "(GDict [" + "; ".join(f"({text(k)}, {gjson(x)})" for k, x in v[1]) + "])"
+    raise Unsupported(f"example document: unsupported JSON value {v!r}")
+
+
 def sec_connectors(m):
     lines = []
     conn = module_assign(m["common"], "CONNECTORS")
@@ -543,6 +596,11 @@ def sec_const(m):
         v = class_assign(cls, "DEFAULT_VALUE_MAP")
         if not (isinstance(v, ast.Dict) and not v.keys):
             raise Unsupported(f"{nm} DEFAULT_VALUE_MAP is not an empty dict literal")
+        lines.append(f"Definition {nm}_VALUE_MAP : list (list Z * list (list Z)) := [].")
+    # FileSystemTree must not override DEFAULT_VALUE_MAP (it inherits Tree's)
+    if any(isinstance(n, ast.Assign) and isinstance(n.targets[0], ast.Name) and n.targets[0].id == "DEFAULT_VALUE_MAP"
+           for n in class_def(fs, "FileSystemTree").body):
+        raise Unsupported("FileSystemTree overrides DEFAULT_VALUE_MAP")
     return lines
 
 
@@ -1000,6 +1058,16 @@ def sec_dictlist(m):
     return lines
 
 
+def sec_docs(m):
+    # literal example documents of the user guide (C12)
+    lines = []
+    docs = doc_examples()
+    for i, d in enumerate(docs):
+        lines.append(f"Definition DOC_EXAMPLE_{i} : gjson := {gjson(d)}.")
+    lines.append("Definition DOC_EXAMPLES : list gjson := [" + "; ".join(f"DOC_EXAMPLE_{i}" for i in range(len(docs))) + "].")
+    return lines
+
+
 def sec_lock(m):
     tree, typed, fs, dot = m["tree"], m["typed"], m["fs"], m["dot"]
     tcls = class_def(tree, "Tree")
@@ -1049,6 +1117,7 @@ SECTIONS = [
     ("TREEGEN", sec_treegen, []),
     ("FILTER", sec_filter, []),
     ("DICTLIST", sec_dictlist, []),
+    ("DOCS", sec_docs, []),
     ("LOCK", sec_lock, ["tree", "typed", "fs", "dot", "node"]),
 ]
 FILES = dict(common="common.py", tree="tree.py", typed="typed_tree.py", fs="fs.py", diff="diff.py", mermaid="mermaid.py",
@@ -1069,6 +1138,8 @@ def dummy(ty: str) -> str:
         return "false"
     if ty.startswith("option"):
         return "None"
+    if ty == "gjson":
+        return "GNull"
     raise Unsupported(f"no dummy value for type {ty}")
 
 
@@ -1087,7 +1158,10 @@ def main():
              "From Coq Require Import List ZArith String.", "Import ListNotations.", "",
              "(* lock skeletons: every control-flow path of every snapshot operation; [Call m] re-enters",
              "   a snapshot operation whose method id is m = index in SNAPSHOT_METHOD_NAMES *)",
-             "Inductive lev := Acq | Rel | Read | Call (m : nat).", ""]
+             "Inductive lev := Acq | Rel | Read | Call (m : nat).", "",
+             "(* JSON values of the user guide's literal example documents *)",
+             "Inductive gjson := GNull | GBool (b : bool) | GInt (z : Z) | GStr (s : list Z)",
+             "  | GList (l : list gjson) | GDict (d : list (list Z * gjson)).", ""]
     failed = []
     new_decls = dict(decls)
     for name, fn, needs in SECTIONS:
